@@ -7,6 +7,19 @@ COMMON_ASSUMPTIONS = [
     "generated search samples the input space; it does not establish absence",
 ]
 
+def fam(prefix, small, blocks=None, wide=None, regress=True, extra=()):
+    """tests of a property over the three scenario families: (quick, thorough) counts"""
+    ts = [{"name": "Test%sSmall" % prefix, "quick": small[0], "thorough": small[1]}]
+    if blocks:
+        ts.append({"name": "Test%sBlocks" % prefix, "quick": blocks[0], "thorough": blocks[1], "min_per_shard": 20})
+    if wide:
+        ts.append({"name": "Test%sWide" % prefix, "quick": wide[0], "thorough": wide[1], "min_per_shard": 8})
+    if regress:
+        ts.append({"name": "Test%sRegress" % prefix, "quick": 0})
+    ts.extend(extra)
+    return ts
+
+
 CHECKS = {
     "C01": {
         "level": "exploration",
@@ -16,6 +29,26 @@ CHECKS = {
             {"name": "TestC01Wide", "quick": 15, "thorough": 480, "min_per_shard": 10},
             {"name": "TestC01Regress", "quick": 0},
         ],
+        "assumptions": COMMON_ASSUMPTIONS,
+    },
+    "C02": {
+        "level": "exploration",
+        "tests": fam("C02", (2500, 80000), (25, 800), (10, 320), regress=False),
+        "assumptions": COMMON_ASSUMPTIONS,
+    },
+    "C03": {
+        "level": "exploration",
+        "tests": [{"name": "TestC03", "quick": 4000, "thorough": 128000}, {"name": "TestC03Regress", "quick": 0}],
+        "assumptions": COMMON_ASSUMPTIONS,
+    },
+    "C04": {
+        "level": "exploration",
+        "tests": fam("C04", (2000, 64000), (20, 640), (8, 256)),
+        "assumptions": COMMON_ASSUMPTIONS,
+    },
+    "C06": {
+        "level": "exploration",
+        "tests": fam("C06", (3000, 96000), (300, 9600)),
         "assumptions": COMMON_ASSUMPTIONS,
     },
 }
